@@ -780,6 +780,41 @@ fn rc_removal_poll_two_entities_minimal()
 }
 
 
+/// C08: one entity loses the component, gets it back and loses it again between two polls: the environment reports TWO
+/// removals of the same entity, and each is reacted to (one run of the entity's removal reactor per removal).
+#[kani::proof]
+#[kani::stub(core::any::TypeId::of, crate::vh::stub_typeid_of)]
+#[kani::stub(<core::any::TypeId as crate::vh::PEq>::eq, crate::vh::stub_typeid_eq)]
+#[kani::unwind(3)]
+fn rc_removal_poll_same_entity_twice()
+{
+    let mut world = World::new();
+    let mut cache = ReactCache::default();
+    cache.track_removals::<CoA>();
+    cache.removal_buffer = Some(Vec::with_capacity(4));
+    cache.reaction_commands_buffer = Vec::with_capacity(4);
+    let mut ids = [0u8; 8];
+    let rem_a = EntityReactionType::Removal(TypeId::of::<CoA>());
+    let e1 = world.spawn(entity_table(&[rem_a], &mut ids, 0)).id();
+    let key = bevy::model::cell::type_key::<React<CoA>>();
+    world.m_push_removed(key, e1);
+    world.m_push_removed(key, e1);
+    let mut captured: Vec<ReactionCommand> = Vec::with_capacity(4);
+    capture_start(&mut world, &mut captured);
+
+    cache.schedule_removal_reactions(&mut world);
+
+    assert!(captured.len() == 2, "C08: each removal is reacted to - two removals of one entity between polls are two reactions");
+    match (&captured[0], &captured[1])
+    {
+        (ReactionCommand::EntityReaction{ reaction_source: s0, reactor: r0, .. }, ReactionCommand::EntityReaction{ reaction_source: s1, reactor: r1, .. }) =>
+            assert!(*s0 == e1 && *s1 == e1 && *r0 == sysc(ids[0]) && *r1 == sysc(ids[0]), "C08: both carry that entity and its reactor"),
+        _ => panic!("C08: removals schedule EntityReaction reactions only"),
+    }
+    kani::cover!(true, "end of harness reached");
+    std::mem::forget(captured); std::mem::forget(world); std::mem::forget(cache);
+}
+
 /// C18 / C14: an insertion / mutation trigger applied for an entity that no longer exists (despawned between queueing
 /// and applying) schedules nothing - not even the type-wide reactors of that component.
 fn component_dispatch_dead_target(which: u8)
